@@ -43,6 +43,8 @@ def site_program(rng):
         shapes[c] = (shape, parent)
     lines.append("fn getf(o) { return o.f; }")
     lines.append("fn callf(o) { return o.f(); }")
+    # round 5 (seed C13_r5): the callable held by a shadowing field belongs to the instance, not to the class
+    lines.append("fn withf(o, v) { o.f = || v; return o; }")
     lines.append("fn setg(o, v) { o.g = v; return o.g; }")
     # the same write as an expression whose value is used: what the site leaves on the stack is observed
     lines.append("fn setv(o, v) { return o.g = v; }")
@@ -90,6 +92,13 @@ def site_program(rng):
             c = rng.randrange(ncls)
         shape, parent = shapes[c]
         kind = rng.choice(["get", "call", "set", "h", "call", "get", "mk", "mk", "setv", "addv", "chain", "setv"])
+        if shape in ("shadow", "field") and kind in ("call", "get") and rng.random() < 0.5:
+            v = rng.randint(900, 999)
+            if kind == "call":
+                ev("show(callf(withf(K%d(), %d)));" % (c, v), v)
+            else:
+                ev("show(getf(withf(K%d(), %d))());" % (c, v), v)
+            continue
         if kind == "mk":
             form = rng.choice(["h", "hm", "gg", "hh", "sg"])
             if form == "h":
